@@ -540,7 +540,7 @@ theorem canon_tags_sublist (ts : List Tag) (e : List (Tag × Bytes)) : ((canon t
     rw [List.filterMap_cons]
     cases hl : latest e t with
     | none => simp only [Option.map_none]; exact ih.cons _
-    | some v => simp only [Option.map_some, List.map_cons]; exact ih.cons₂ _
+    | some v => simp only [Option.map_some, List.map_cons]; exact ih.cons_cons _
 
 theorem canon_entryOK (d : Tag) (ts : List Tag) (hn : (d :: ts).Nodup) (e : List (Tag × Bytes)) (hd : (latest e d).isSome = true) :
     EntryOK d (d :: ts) (canon (d :: ts) e) := by
